@@ -2993,6 +2993,54 @@ def _oracle_cu(s, fails):
                   "input": inp, "observed": float(e_true[bad].max()), "required": "<= %g" % TOL})
 
 
+def _oracle_long(s, fails):
+    """a LONG history of a system with many DOF (n * nt above 2**21): the solution is the concatenation of two shorter
+    runs restarted at the split point with the state reached there, and equals the modal solution (uncoupled solver on the
+    modes, mapped back) - an error at an internal block boundary of a solver shows in both"""
+    ode = _ode()
+    n, nt, h, o, seed = s["n"], s["nt"], s["h"], s["order"], s["seed"]
+    r = np.random.default_rng(seed)
+    Q = np.linalg.qr(r.standard_normal((n, n)))[0]
+    w = r.uniform(0.3, 3.0, n) / h / 6
+    zeta = r.uniform(0.01, 0.2, n)
+    K = Q @ np.diag(w * w) @ Q.T
+    B = Q @ np.diag(2 * zeta * w) @ Q.T
+    F = np.zeros((n, nt))
+    F[:, : nt // 3] = r.standard_normal((n, 1))
+    F[:, nt // 3:] = r.standard_normal((n, 1)) * 0.5
+    F[:, ::997] += r.standard_normal((n, len(range(0, nt, 997))))
+    k = s["split"]
+    inp = dict(s)
+    with warnings.catch_warnings():
+        warnings.simplefilter("ignore")
+        modal = ode.SolveUnc(None, 2 * zeta * w, w * w, h, order=o).tsolve(Q.T @ F)
+        ref = Q @ modal.d
+        sc = np.abs(ref).max() + 1e-300
+        for name, mk in (("SolveExp2", lambda: ode.SolveExp2(None, B, K, h, order=o)),):
+            try:
+                full = mk().tsolve(F)
+                a = mk().tsolve(F[:, : k + 1])
+                b = mk().tsolve(F[:, k:], d0=a.d[:, -1], v0=a.v[:, -1])
+            except Exception as e:  # noqa: BLE001
+                fails.append({"family": "long-history-raises-" + name, "what": name + " refuses a long history", "input": inp,
+                              "observed": repr(e)[:120], "required": "a solution"})
+                continue
+            e1 = float(np.abs(full.d - ref).max() / sc)
+            e2 = float(max(np.abs(full.d[:, : k + 1] - a.d).max(), np.abs(full.d[:, k:] - b.d).max()) / sc)
+            _note("long-" + name + "-vs-modal", e1)
+            _note("long-" + name + "-restart", e2)
+            if not e1 <= 1e-7:
+                j = int(np.argmax(np.abs(full.d - ref).max(axis=0)))
+                fails.append({"family": "long-history-%s-vs-modal-solution" % name,
+                              "what": "%s on %d DOF x %d samples differs from the modal solution (first large error at "
+                                      "sample %d)" % (name, n, nt, int(np.argmax(np.abs(full.d - ref).max(axis=0) > 1e-7 * sc))),
+                              "input": inp, "observed": e1, "required": "<= 1e-7"})
+            elif not e2 <= 1e-8:
+                fails.append({"family": "long-history-%s-restart" % name,
+                              "what": "%s: a long history is not the concatenation of two runs restarted at sample %d" % (name, k),
+                              "input": inp, "observed": e2, "required": "<= 1e-8"})
+
+
 def _oracle_one(s):
     _quiet()
     fails = []
@@ -3007,6 +3055,9 @@ def _oracle_one(s):
         return fails
     if s.get("kind") == "boundary":
         _oracle_boundary(s, fails)
+        return fails
+    if s.get("kind") == "long":
+        _oracle_long(s, fails)
         return fails
     if s.get("kind") == "coupled" or s.get("phi") is not None:
         _oracle_coupled(s, fails)
@@ -3099,9 +3150,15 @@ def search(ctx, hints):
     for _ in range(ctx.pick(80, 800)):
         specs.append(_gen_cu(rng2))
     specs = _boundary_specs() + specs
+    # long histories: n * nt beyond 2**21 (and, thorough, few DOF with a quarter of a million samples)
+    specs.append({"kind": "long", "n": 64, "nt": 2 ** 15 + 300, "h": 0.01, "order": 1, "seed": 5, "split": 2 ** 14 + 7})
+    specs.append({"kind": "long", "n": 96, "nt": 2 ** 14 + 6000, "h": 0.02, "order": 0, "seed": 6, "split": 9001})
+    if ctx.thorough:
+        specs.append({"kind": "long", "n": 8, "nt": 2 ** 18 + 300, "h": 0.01, "order": 1, "seed": 7, "split": 2 ** 17 + 3})
+        specs.append({"kind": "long", "n": 3, "nt": 2 ** 20 + 11, "h": 0.005, "order": 0, "seed": 8, "split": 2 ** 19 + 1})
     for s in specs:
         fs = _oracle_one(s)
-        if s.get("kind") in ("exp1", "boundary", "cplx-unc"):
+        if s.get("kind") in ("exp1", "boundary", "cplx-unc", "long"):
             ctx.count("oracle:" + s["kind"] + ("-" + s["cut"] if s.get("cut") else ""))
             ctx.failures.extend(fs)
             continue
